@@ -139,9 +139,8 @@ theorem readFrames_ok (p : Pool) (pos : Nat → Nat) (n cl : Nat) (hp : PosOk po
     obtain ⟨rest, l3, h3, hwf3, hle3, hc3, hr3, hv3⟩ := ih (some f.at_) hrest l2 hwf2 (hle2.1.symm.trans hcl1) (by omega)
     refine ⟨(id, fr) :: rest, l3, ?_, hwf3, (hle1.trans hle2).trans hle3, by simp only [List.map_cons, List.sum_cons]; omega, ?_, ?_⟩
     · simp only [Option.isNone_some, prevOff, Option.map_some] at h3
-      have hinc' : (decide ((if prev.isNone = true then d else d + 1) > 65535) || decide (pos f.at_ > 65535)) = false := by
-        simp only [Bool.or_eq_false_iff, decide_eq_false_iff_not]; omega
-      simp only [List.length_cons, readFrames, encFrames, List.append_assoc, h1, ok_bind, hoff, hinc', Bool.false_eq_true, if_false,
+      have hinc' : ¬ pos f.at_ > 65535 := by omega
+      simp only [List.length_cons, readFrames, encFrames, List.append_assoc, h1, ok_bind, hoff, hinc', if_false,
         h2, h3, pure_eq]
     · intro pc hpc
       simp only [List.flatMap_cons, List.mem_append, List.mem_singleton] at hpc
